@@ -288,6 +288,15 @@ func TestC01(t *testing.T) {
 		if stale {
 			old := drawKey(t, "oldkey", 99, publicName)
 			clientKey, _ = hello.NewKey(old.Priv.Bytes(), 99, publicName, suites)
+			if rapid.IntRange(0, 2).Draw(t, "stale_same_id_other_suite") == 0 {
+				// the operator re-issued the SAME config id with a new key and another cipher
+				// suite; the client still holds the old config (old key, old suite) under that id
+				tk := keys[target]
+				tk2, _ := hello.NewKey(tk.Priv.Bytes(), tk.ID, tk.PublicName, suites[1:2])
+				*tk = *tk2
+				clientKey, _ = hello.NewKey(old.Priv.Bytes(), tk.ID, publicName, suites[:1])
+				cl = append(cl, "stale_same_id_other_suite")
+			}
 			cl = append(cl, "stale")
 		}
 		// maximum_name_length is the operator's choice (0 = no hint, a site-wide constant, ...):
